@@ -6,6 +6,8 @@ props = [json.loads(l) for l in open(os.path.join(V, "properties.jsonl"))]
 cfgs = {}
 for f in sorted(glob.glob(os.path.join(V, "checks", "C*.json"))):
     c = json.load(open(f))
+    if "property" not in c:
+        continue  # a classification file of a property (e.g. C11_sites.json), not a check configuration
     cfgs[c["property"]] = c
 na_reasons = {}
 nap = os.path.join(V, "checks", "not_applicable.json")
